@@ -121,8 +121,9 @@ function makeWorld(spec) {
       /^(String|Number|Boolean|Object|Array|Function|Symbol|BigInt|Date|Map|Set|WeakMap|WeakSet|Promise|Error|RegExp)$/.test(v.name) &&
       /\[native code\]/.test(Function.prototype.toString.call(v)) ? v.name : null
   }
+  let budget = 20000 // canonical nodes per case: self-containing values (a slot returning its own vnode) are cut off
   function canon(v, d = 0) {
-    if (d > 40) return { t: 'deep' }
+    if (d > 14 || --budget < 0) return { t: 'deep' }
     if (v === undefined) return { t: 'undef' }
     if (v === null) return { t: 'null' }
     switch (typeof v) {
